@@ -1,6 +1,7 @@
 package snps
 
 import (
+	"bytes"
 	"strconv"
 
 	"github.com/virus-evolution/gofasta/pkg/encoding"
@@ -128,4 +129,73 @@ func (c *vCapture) Write(p []byte) (int, error) {
 	c.buf = append(c.buf, p...)
 	c.writes++
 	return len(p), nil
+}
+
+// VH_C03_SNPs_e2e: the whole command function (readers, worker pool, writer, goroutines and selects) on a
+// symbolic alignment rendered as FASTA text.
+func VH_C03_SNPs_e2e() {
+	W := vParam("W")
+	N := vParam("N")
+	hard := vBool("hardGaps")
+	BS := vBaseSetTable(hard)
+	UP := vUpperTable()
+	refTxt := make([]byte, W)
+	for i := 0; i < W; i++ {
+		refTxt[i] = vNuc(vName("r", i), sigma34)
+	}
+	refFile := append([]byte(">ref\n"), refTxt...)
+	refFile = append(refFile, '\n')
+	qTxt := make([][]byte, N)
+	var aln []byte
+	for n := 0; n < N; n++ {
+		qTxt[n] = make([]byte, W)
+		for i := 0; i < W; i++ {
+			qTxt[n][i] = vNuc(vName("q", n, i), sigma34)
+		}
+		aln = append(aln, []byte(">s"+strconv.Itoa(n)+" descr\n")...)
+		aln = append(aln, qTxt[n]...)
+		aln = append(aln, '\n')
+	}
+	w := &vCapture{}
+	err := SNPs(bytes.NewReader(refFile), bytes.NewReader(aln), hard, false, 0, w)
+	vAssert("C03.e2e.no-error", err == nil)
+	exp := "query,SNPs\n"
+	for n := 0; n < N; n++ {
+		exp += "s" + strconv.Itoa(n) + ","
+		first := true
+		for i := 0; i < W; i++ {
+			if BS[refTxt[i]]&BS[qTxt[n][i]] == 0 {
+				if !first {
+					exp += "|"
+				}
+				first = false
+				exp += string([]byte{UP[refTxt[i]]}) + strconv.Itoa(i+1) + string([]byte{UP[qTxt[n][i]]})
+			}
+		}
+		exp += "\n"
+	}
+	vAssert("C03.e2e.output-equals-definition", string(w.buf) == exp)
+}
+
+// VH_C12_SNPs_sched: the same pipeline under every cooperative schedule (choice of the next goroutine at
+// each channel operation) and every select choice; the bytes written must not depend on the schedule.
+func VH_C12_SNPs_sched() {
+	N := vParam("N")
+	vNumCPU(vParam("NCPU"))
+	vSchedExplore(vParam("DEV"))
+	refFile := []byte(">ref\nAC\n")
+	var aln []byte
+	exp := "query,SNPs\n"
+	for n := 0; n < N; n++ {
+		aln = append(aln, []byte(">s"+strconv.Itoa(n)+"\nA"+string("ACGT"[n%4])+"\n")...)
+		exp += "s" + strconv.Itoa(n) + ","
+		if n%4 != 1 {
+			exp += "C2" + string("ACGT"[n%4])
+		}
+		exp += "\n"
+	}
+	w := &vCapture{}
+	err := SNPs(bytes.NewReader(refFile), bytes.NewReader(aln), false, false, 0, w)
+	vAssert("C12.snps.no-error", err == nil)
+	vAssert("C12.snps.output-independent-of-schedule", string(w.buf) == exp)
 }
